@@ -5,7 +5,7 @@
 (* the sequential machine of RV32.tla and packaging a case for the Go      *)
 (* harness.                                                                *)
 (***************************************************************************)
-EXTENDS Findings, Json
+EXTENDS Findings, Json, Mvp4, IOUtils
 
 (* registers every family may use; the initial state of a case gives each a value *)
 PRegs == {"ra", "a0", "a1", "t0", "t1", "t2", "t3"}
@@ -42,11 +42,16 @@ EndsWithRet(fin) == fin.status = "ret"
 (* executed instruction indices (0-based) in order *)
 Path(fin) == [k \in 1 .. Len(fin.ev) |-> fin.ev[k].i]
 
+(* the cycle-accurate MVP-4 model (spec/Mvp4) is evaluated for short runs when the harness asks for it *)
+Cyc4On == "VERIF_CYC4" \in DOMAIN IOEnv /\ IOEnv.VERIF_CYC4 = "1"
+Cyc4MaxN == 48
+
 CaseRec(fam, prog, regs0, img, memSize, fin, focusRegs, focusAddrs, tags, extra) ==
   [ mem0 |-> <<>>, fam |-> fam, prog |-> prog, regs0 |-> IntRegs(regs0), img |-> img, memSize |-> memSize,
     misal |-> fin.misal,
     exp |-> [ status |-> fin.status, regs |-> IntRegs(fin.regs), mem |-> fin.mem, n |-> fin.n,
               cyc1 |-> fin.cyc1, cyc2 |-> fin.cyc2,
+              cyc4 |-> IF Cyc4On /\ fin.n <= Cyc4MaxN THEN Cyc4(prog, fin) ELSE -1,
               \* MVP-3 writes every resident data line back when the run ends
               cyc3 |-> fin.cyc3 + LatMem * Len(fin.l1d3), pcs |-> [k \in 1 .. Len(fin.ev) |-> fin.ev[k].i],
               addrs |-> [k \in 1 .. Len(fin.ev) |-> fin.ev[k].a] ],
